@@ -13,7 +13,10 @@ EXTENDS Integers, Sequences, FiniteSets, TLC, Json
 
 CONSTANTS Shape, Emit, PairView
 
-Inputs   == {"plain", "commented", "badml", "long"}
+\* badml: an unterminated literal after comments on several lines; badlex: every other kind of lexical error, each after
+\* some text of the failing lexeme has been read (bad escape, backslash at the end, bad number, unterminated quoted
+\* identifier / block comment / dollar quote, a character no token starts with); literals: one literal of every quoting style
+Inputs   == {"plain", "commented", "badml", "long", "badlex", "literals"}
 CallOps  == {"Tokenize", "TokenizeCtx", "CtxDone", "CtxFire"}
 Dialects == {"postgresql", "mysql"}
 HasComments(in) == in \in {"commented", "badml"}
@@ -28,7 +31,7 @@ view == IF PairView THEN <<where, inst, holder, last, lastOp>> ELSE <<where, ins
 Res(op, in, d) ==
     [out |-> IF op = "CtxDone" THEN "cancelled"
              ELSE IF op = "CtxFire" /\ in = "long" THEN "cancelled"
-             ELSE IF in = "badml" THEN "lexerror" ELSE "tokens",
+             ELSE IF in \in {"badml", "badlex"} THEN "lexerror" ELSE "tokens",
      com |-> IF op = "CtxDone" THEN "none" ELSE IF HasComments(in) THEN in ELSE "none",
      dialect |-> d]
 
